@@ -71,6 +71,15 @@ def check (j : Json) : Res := Id.run do
     if provision == 0 then r := { r with stats := "mint.zero_provision" :: r.stats }
   else
     r := { r with stats := "mint.panic" :: r.stats }
+  -- C08: inside the domain of `C01m.split_never_halts` (both pools are coins inside the supply, one whole coin elsewhere)
+  -- the begin-blocker must not halt
+  let cpRaw : Int := ((cpPre.find? (·.1 == bond)).map (·.2)).getD 0
+  let inDomain := provision ≥ 0 && pool ≥ 0 && cpRaw ≥ 0 && cpRaw + pool * Dec.prec + Dec.prec ≤ (supplyPre + provision) * Dec.prec
+  if inDomain then
+    r := { r with stats := "mint.in_domain" :: r.stats }
+    if outcome != "ok" then
+      r := { r with findings := ("monitor", "C08", "mint_never_halts_in_domain", s!"the pools are inside the supply, yet BeginBlocker panicked. {ctxt}") :: r.findings }
+  else r := { r with stats := "mint.outside_domain" :: r.stats }
   -- ---------------- the model on the same input
   let accts : Accts := ⟨"mint", "fee_collector", "distribution", "shield"⟩
   let posts : List Posting := mods.flatMap (fun m => (balPre m).map (fun c => (m, c.1, c.2)))
